@@ -1,173 +1,72 @@
-(* Read programs (Purity/Model.v): whatever a program computes with what the
-   store tells it, running it leaves the dataset as it was and - once the
-   default graph is registered - leaves the whole state as it was, so that every
-   read program answers the same again, with any other read programs run in
-   between.  Proved by induction over programs (continuations are arbitrary
-   Gallina functions). *)
+(* Read programs (Purity/Model.v).  These are facts about the store's read
+   INTERFACE: no operation of the language writes to the dataset, so a program
+   - whatever it computes with what the store tells it - leaves the dataset
+   (Leibniz) as it was, and answers the same again.  They hold by construction
+   of the language; what connects them to a serialiser or a query is the
+   per-run recording of the store methods it calls (harness/c13.py). *)
 From RV Require Import Dataset.Model Dataset.Proofs Purity.Model.
 Local Open Scope N_scope.
 
-Definition ds_of (s : rstate) : ds := r_ds s.
-
-(* what every program preserves *)
-Definition same_data (s s' : rstate) : Prop :=
-  quads (st (r_ds s')) = quads (st (r_ds s)) /\ orphans (st (r_ds s')) = orphans (st (r_ds s))
-  /\ is_ds (r_ds s') = is_ds (r_ds s) /\ fresh (r_ds s') = fresh (r_ds s)
-  /\ (forall g, (g = 0 \/ In g (known (st (r_ds s')))) <-> (g = 0 \/ In g (known (st (r_ds s)))))
-  /\ (forall g, In g (known (st (r_ds s))) -> In g (known (st (r_ds s')))).
-
-Lemma same_data_refl s : same_data s s.
-Proof. unfold same_data. repeat split; auto; tauto. Qed.
-
-Lemma same_data_trans s1 s2 s3 : same_data s1 s2 -> same_data s2 s3 -> same_data s1 s3.
+(* 1. ANY program leaves the dataset component exactly as it was *)
+Theorem run_ds : forall A (pr : prog A) s, r_ds (fst (run pr s)) = r_ds s.
 Proof.
-  intros (A1 & A2 & A3 & A4 & A5 & A6) (B1 & B2 & B3 & B4 & B5 & B6). unfold same_data.
-  repeat split; try congruence; auto.
-  - intros H. apply A5, B5, H.
-  - intros H. apply B5, A5, H.
-Qed.
-
-Lemma same_data_touch s : same_data s (touch0 s).
-Proof.
-  unfold same_data, touch0. cbn [r_ds set_st st st_add_graph quads orphans known is_ds fresh].
-  repeat split; auto; rewrite ?N_sadd_In; try tauto. intros H. rewrite N_sadd_In. auto.
-Qed.
-
-Lemma same_data_bind s a b : same_data s {| r_ds := r_ds s; r_ns := bind_ns a b (r_ns s) |}.
-Proof. unfold same_data. cbn [r_ds]. repeat split; auto; tauto. Qed.
-
-(* 1. purity: ANY program leaves quads, union-only triples and the set of
-   graph names (the default graph counting as always present) unchanged *)
-Theorem run_pure : forall A (pr : prog A) s, same_data s (fst (run pr s)).
-Proof.
-  induction pr as [a|p oc k IH|ot k IH|oc k IH|k IH|k IH|a b k IH]; intros s; cbn [run].
-  - apply same_data_refl.
-  - apply IH.
-  - apply IH.
-  - apply IH.
-  - apply IH.
-  - eapply same_data_trans; [apply same_data_touch|apply IH].
-  - eapply same_data_trans; [apply same_data_bind|apply IH].
-Qed.
-
-(* the prefix table is touched by [PBind] only *)
-Theorem run_bind_free_ns : forall A (pr : prog A), bind_free pr -> forall s, r_ns (fst (run pr s)) = r_ns s.
-Proof.
-  induction 1 as [a|p oc k _ IH|ot k _ IH|oc k _ IH|k _ IH|k _ IH]; intros s; cbn [run]; auto.
+  induction pr as [a|p oc k IH|ot k IH|oc k IH|k IH|a b k IH]; intros s; cbn [run]; auto.
   rewrite IH. reflexivity.
 Qed.
 
-(* 2. a program that only asks changes NOTHING (Leibniz) *)
-Theorem run_quiet_id : forall A (pr : prog A), quiet pr -> forall s, fst (run pr s) = s.
+(* 2. a program that binds no prefix changes NOTHING *)
+Theorem run_bind_free_id : forall A (pr : prog A), bind_free pr -> forall s, fst (run pr s) = s.
 Proof. induction 1; intros s; cbn [run]; auto. Qed.
 
-Lemma touch0_settled s : settled s -> touch0 s = s.
-Proof.
-  unfold settled, touch0. destruct s as [[[q o k] b f] ns]. cbn [r_ds r_ns st set_st st_add_graph quads orphans known is_ds fresh].
-  intros H. apply (memb_In _ N.eqb_spec) in H. unfold set_st, st_add_graph, sadd. cbn [st quads orphans known is_ds fresh].
-  rewrite H. reflexivity.
-Qed.
-
-Lemma settled_touch0 s : settled (touch0 s).
-Proof. unfold settled, touch0. cbn [r_ds set_st st st_add_graph known]. apply N_sadd_In. auto. Qed.
-
-(* 3. once the default graph is registered, a program that binds no prefix
-   changes NOTHING either: the one write a read issues is idempotent *)
-Theorem run_settled_id : forall A (pr : prog A), bind_free pr -> forall s, settled s -> fst (run pr s) = s.
-Proof.
-  induction 1 as [a|p oc k _ IH|ot k _ IH|oc k _ IH|k _ IH|k _ IH]; intros s Hs; cbn [run]; auto.
-  rewrite (touch0_settled s Hs). auto.
-Qed.
-
-Theorem settled_preserved : forall A (pr : prog A) s, settled s -> settled (fst (run pr s)).
-Proof. intros A pr s Hs. unfold settled in *. destruct (run_pure A pr s) as (_ & _ & _ & _ & _ & H). auto. Qed.
-
-(* a bind-free program changes at most the store's registry, and only by the default graph *)
-Theorem run_bind_free_known : forall A (pr : prog A), bind_free pr -> forall s,
-  fst (run pr s) = s \/ (fst (run pr s) = touch0 s /\ ~ settled s).
-Proof.
-  induction 1 as [a|p oc k _ IH|ot k _ IH|oc k _ IH|k _ IH|k H IH]; intros s; cbn [run]; auto.
-  destruct (in_dec N.eq_dec 0 (known (st (r_ds s)))) as [Hs|Hn].
-  - rewrite (touch0_settled s Hs). left. now apply run_settled_id.
-  - right. split; auto. apply run_settled_id; auto. apply settled_touch0.
-Qed.
-
-(* 4. repeatability: from a settled state, a read program answers the same
-   when run again - immediately, or after any other read programs *)
+(* 3. repeatability with other read programs in between *)
 Inductive some_prog := SP (A : Type) (pr : prog A).
 Definition sp_bind_free (x : some_prog) : Prop := match x with SP _ pr => bind_free pr end.
 Definition sp_run (s : rstate) (x : some_prog) : rstate := match x with SP _ pr => fst (run pr s) end.
 
-Lemma runs_settled_id : forall between s, settled s -> Forall sp_bind_free between -> fold_left sp_run between s = s.
+Lemma runs_id : forall between s, Forall sp_bind_free between -> fold_left sp_run between s = s.
 Proof.
-  induction between as [|[B q] r IH]; intros s Hs Hf; auto. inversion Hf as [|? ? H1 H2]; subst.
-  cbn [fold_left sp_run]. cbn [sp_bind_free] in H1. rewrite (run_settled_id B q H1 s Hs). auto.
+  induction between as [|[B q] r IH]; intros s Hf; auto. inversion Hf as [|? ? H1 H2]; subst.
+  cbn [fold_left sp_run]. cbn [sp_bind_free] in H1. rewrite (run_bind_free_id B q H1 s). auto.
 Qed.
 
 Theorem run_repeatable : forall A (pr : prog A) between s,
-  settled s -> bind_free pr -> Forall sp_bind_free between ->
+  bind_free pr -> Forall sp_bind_free between ->
   snd (run pr (fold_left sp_run between (fst (run pr s)))) = snd (run pr s).
 Proof.
-  intros A pr between s Hs Hb Hf. rewrite (run_settled_id A pr Hb s Hs), (runs_settled_id between s Hs Hf). reflexivity.
+  intros A pr between s Hb Hf. rewrite (run_bind_free_id A pr Hb s), (runs_id between s Hf). reflexivity.
 Qed.
 
-(* the same at ANY state for programs that only ask *)
-Definition sp_quiet (x : some_prog) : Prop := match x with SP _ pr => quiet pr end.
-Theorem run_repeatable_quiet : forall A (pr : prog A) between s,
-  quiet pr -> Forall sp_quiet between ->
-  snd (run pr (fold_left sp_run between (fst (run pr s)))) = snd (run pr s).
-Proof.
-  intros A pr between s Hq Hf. rewrite (run_quiet_id A pr Hq s).
-  assert (H : fold_left sp_run between s = s).
-  { clear Hq. induction between as [|[B q] r IH]; auto. inversion Hf as [|? ? H1 H2]; subst.
-    cbn [fold_left sp_run]. cbn [sp_quiet] in H1. rewrite (run_quiet_id B q H1 s). auto. }
-  now rewrite H.
-Qed.
-
-(* with prefix bindings in between, the DATA a program sees is still the same:
-   a program that never asks for the prefix table answers the same *)
+(* 4. prefix bindings do not reach the data: a program that never asks for the
+   prefix table answers the same whatever the table is, binds included *)
 Inductive ns_blind {A} : prog A -> Prop :=
 | nb_ret a : ns_blind (PRet a)
 | nb_triples p oc k : (forall x, ns_blind (k x)) -> ns_blind (PTriples p oc k)
 | nb_contexts ot k : (forall x, ns_blind (k x)) -> ns_blind (PContexts ot k)
 | nb_len oc k : (forall x, ns_blind (k x)) -> ns_blind (PLen oc k)
-| nb_touch k : ns_blind k -> ns_blind (PTouchDefault k)
 | nb_bind a b k : ns_blind k -> ns_blind (PBind a b k).
 
 Theorem run_ns_blind : forall A (pr : prog A), ns_blind pr -> forall s s',
-  r_ds s = r_ds s' -> snd (run pr s) = snd (run pr s') /\ r_ds (fst (run pr s)) = r_ds (fst (run pr s')).
+  r_ds s = r_ds s' -> snd (run pr s) = snd (run pr s').
 Proof.
-  induction 1 as [a|p oc k _ IH|ot k _ IH|oc k _ IH|k _ IH|a b k _ IH]; intros s s' E; cbn [run].
+  induction 1 as [a|p oc k _ IH|ot k _ IH|oc k _ IH|a b k _ IH]; intros s s' E; cbn [run].
   - auto.
   - rewrite E. apply IH, E.
   - rewrite E. apply IH, E.
   - rewrite E. apply IH, E.
-  - apply IH. unfold touch0. cbn [r_ds]. now rewrite E.
   - apply IH. exact E.
 Qed.
 
-(* ---- the front end's own reads ARE such programs ---- *)
+(* ---- the front end's own reads unfold to such programs (by definition) ---- *)
 Lemma quads_is_program d ns p :
   cg_quads d p CTriple = (let (s', l) := run (prog_quads p) {| r_ds := d; r_ns := ns |} in (r_ds s', l)).
 Proof. reflexivity. Qed.
 
 Lemma graphs_is_program d ns :
   ds_graphs d = (let (s', l) := run (prog_graphs (is_ds d)) {| r_ds := d; r_ns := ns |} in (r_ds s', l)).
-Proof.
-  unfold ds_graphs, prog_graphs. cbn [run st_contexts r_ds]. destruct (is_ds d); cbn [andb]; [|reflexivity].
-  destruct (memb N.eqb 0 (known (st d))); reflexivity.
-Qed.
+Proof. unfold ds_graphs, prog_graphs. cbn [run st_contexts r_ds]. destruct (is_ds d); reflexivity. Qed.
 
 Lemma len_is_program d ns : cg_len d = snd (run prog_len {| r_ds := d; r_ns := ns |}).
 Proof. reflexivity. Qed.
-
-Lemma prog_graphs_bind_free b : bind_free (prog_graphs b).
-Proof.
-  unfold prog_graphs. constructor. intros k. destruct (b && negb (memb N.eqb 0 k)); repeat constructor.
-Qed.
-
-Lemma prog_quads_quiet p : quiet (prog_quads p).
-Proof. unfold prog_quads. constructor. intros x. constructor. Qed.
 
 (* every store method the checker lets a read call is an operation of the language *)
 Lemma call_ok_is_op c : call_ok c = true -> meth_kind c <> None.
@@ -177,5 +76,5 @@ Proof.
 Qed.
 
 Lemma write_codes_rejected :
-  forallb (fun c => negb (call_ok c)) [30; 31; 32; 33; 34; 35; 36; 37; 38; 39; 40; 41; 42; 43; 44] = true.
+  forallb (fun c => negb (call_ok c)) [21; 30; 31; 32; 33; 34; 35; 36; 37; 38; 39; 40; 41; 42; 43; 44] = true.
 Proof. reflexivity. Qed.
